@@ -174,7 +174,9 @@ package rapid
 //@   requires [C03] maxCount < 0 || minCount <= maxCount
 //@   requires [C03] minCount < 1<<52
 //@   requires [C03] avgCount < 0 || avgCount >= float64(minCount)
-//@   ensures [C03] fresh(result) && repeatInv(result)
+//@   ensures [C03] fresh(result) && 0 <= result.minCount && result.minCount <= result.maxCount && 0 <= result.count && result.count <= result.maxCount
+//@   ensures [C03,slow] result.pContinue >= 0
+//@   ensures [C03,slow] result.pContinue <= 1
 //@   ensures [C03] result.count == 0 && result.group == -1 && !result.forceStop
 //@   ensures [C03] result.minCount == ite(minCount < 0, 0, minCount) && result.maxCount == ite(maxCount < 0, math.MaxInt, maxCount)
 //@   ensures [C03] implies(avgCount < 0, result.avgCount >= 0 && result.avgCount <= 1<<54) && implies(avgCount >= 0, result.avgCount == avgCount)
